@@ -6,6 +6,9 @@
    transaction whether it was packaged, gasUsed, gas limit / price, payer; the state of the whole address universe
    at the block - the state at its parent is the committed state `cur` logged before (every address named in block.ChangeLogs is inside the universe, the adapter fails
    otherwise).  Amounts are in units of 10^15 mo, exact (a remainder is listed in `inexact`, which must be empty).
+   The state also carries the block height, the term / interim durations in force, what the reward precompile has stored
+   and the node's candidate index; the reset event names the deputies (by account) and the paid nodes of every term the
+   setup chain has elected.  With these the block at height cur.h + 1 is an ordinary, an interim or a REWARD block.
 
    The monitor adopts the logged state, gasUsed and packaging decisions and demands what the property says, using
    the ledger semantics of LedgerOps (model-checked in Ledger.tla):
@@ -46,10 +49,18 @@ C05OK(e) == LET x == X(e, {}) IN
 C05Dev(e) == LET k == "Dev_BoxSubGasMinted" IN
              /\ Has(k) /\ ~C05OK(e) /\ C05Common(e) /\ e.post.bal = X(e, {k}).s.bal /\ UseDev(k)
 (* ---------------------------------------------------------------- C11 *)
+\* Where the monitor predicts votes (below) it does so on the REAL balances: the model run the prediction is read from must
+\* reproduce the logged balances - as they should be or, where a box was packaged, as C05's known defect Dev_BoxSubGasMinted
+\* leaves the income account (balances are judged by C05, not here; the income account is a voter too).
+BalDevs == {{}, {"Dev_BoxSubGasMinted"}}
 C11OK(e) == IF VotesOK(c, cur) THEN VotesOK(c, e.post)
-            ELSE e.post.votes = X(e, {}).s.votes          \* after an accepted deviation: the block itself must still be right
+            ELSE (\E bd \in BalDevs : LET x == X(e, bd) IN               \* after an accepted deviation: the block itself must still be right
+                                         e.post.bal = x.s.bal /\ e.post.votes = x.s.votes) = TRUE
 C11Dev(e) == LET k == "Dev_VoteUsesPreTxBalance" IN
-             /\ Has(k) /\ ~C11OK(e) /\ e.post.votes = X(e, {k}).s.votes /\ X(e, {}).s.votes # X(e, {k}).s.votes /\ UseDev(k)
+             /\ Has(k) /\ ~C11OK(e)
+             /\ (\E bd \in BalDevs : LET x == X(e, bd \cup {k})  y == X(e, bd) IN
+                                       e.post.bal = x.s.bal /\ e.post.votes = x.s.votes /\ y.s.votes # x.s.votes) = TRUE
+             /\ UseDev(k)
 (* ---------------------------------------------------------------- C12 *)
 C12With(e, x) == /\ e.post.eq = x.s.eq /\ e.post.sup = x.s.sup /\ e.post.frz = x.s.frz /\ ~x.bad /\ SupplyOK(e.post)
 C12OK(e) == C12With(e, X(e, {}))
